@@ -7,9 +7,43 @@ import time
 from . import front, report
 
 
+def common_rules(ctx, prop):
+    """Rules that hold for the mechanism of every property. M0: no function the property's obligations were recorded on (nor a helper extracted from it) answers from
+    storage that outlives the call under a key that ignores one of its arguments - a later call that differs only in that argument would get the first call's result."""
+    from . import q
+    if prop == 'C09':          # C09 states the same rule per summary (U1..U4)
+        return
+    seen, stale, n = set(), [], 0
+    for w in sorted(ctx.analysed['functions']):
+        rel, _, qn = w.partition(':')
+        m = ctx.repo.modules.get(rel)
+        fi = m.funcs.get(qn) if m is not None else None
+        if fi is None:
+            continue
+        for f_ in ctx.repo.transparent_closure(fi):
+            if id(f_.node) in seen:
+                continue
+            seen.add(id(f_.node))
+            n += 1
+            try:
+                sites = q.memo_sites(f_)
+            except Exception:
+                continue
+            for cache, key, ret, missing in sites:
+                if missing:
+                    stale.append((f_, ret, cache, key, missing))
+    for f_, ret, cache, key, missing in stale[:3]:
+        ctx.violated(prop + '.M0', f_, ret, '%s returns a result memoised in `%s` under the key `%s`, which ignores the argument(s) %s: a later call that differs only there is answered with '
+                     'the first call\'s result' % (f_.name, cache, front.unparse(key), ', '.join(missing)))
+    if not stale and n:
+        ctx.holds(prop + '.M0', sorted(ctx.analysed['functions'])[0], 'no consulted function memoises its result under a key that ignores one of its arguments (%d functions)' % n, 'memoisation')
+
+
 def evaluate(mod, prop, repo, tier='quick', seed=0):
     ctx = report.Ctx(prop, repo, tier, seed)
     mod.run(ctx)
+    if not getattr(ctx, 'outside_model', None):
+        common_rules(ctx, prop)
     return ctx
 
 
